@@ -333,6 +333,7 @@ inline void storage_sequences(const vf::opts &o, vf::report &R, uint64_t seqs) {
         R.nontrivial_cases++;
         R.sig(res.desc);
         R.cls(std::string("policy: ") + pname);
+        if (res.desc.find("raw sizes:") != std::string::npos) R.cls("raw_size_walks");
         if (R.samples.size() < 5 && sn % 7 == R.samples.size()) R.sample(vf::jobj().kv("ops", res.desc).kv("result", "frames exclusive, sizes/pairing ok, heap balance zero").str());
     }
 }
